@@ -1,8 +1,9 @@
 #!/bin/sh
 # tools/seed_sweep.sh <seeds...> : quick tier of every check under several VERIF_SEED values (false-alarm hunt)
+mkdir -p /var/tmp/sweep
 for s in "$@"; do
   for c in C01 C02 C03 C04 C05 C06 C07 C08 C09 C10 C11 C12 C13 C14 C15 C16 C17 C18 C19 C20; do
-    VERIF_SEED=$s ./check $c --tier quick > sweep_${c}_$s.log 2>&1; rc=$?
-    echo "seed=$s $c rc=$rc $(grep -c '^VIOLATION' sweep_${c}_$s.log) | $(tail -1 sweep_${c}_$s.log | cut -c1-140)"
+    VERIF_SEED=$s ./check $c --tier quick > /var/tmp/sweep/sweep_${c}_$s.log 2>&1; rc=$?
+    echo "seed=$s $c rc=$rc $(grep -c '^VIOLATION' /var/tmp/sweep/sweep_${c}_$s.log) | $(tail -1 /var/tmp/sweep/sweep_${c}_$s.log | cut -c1-140)"
   done
 done
